@@ -52,9 +52,10 @@ package dns64
 //@
 //@ axiom valid_prefix_bits: forall b int :: {validPrefixBits[b]} validPrefixBits[b] <==> okBits(b)
 //@
-//@ # ---- C20: the AAAA negative TTL is min(SOA TTL, SOA MINIMUM>0) of the first SOA in the authority section
+//@ # ---- C20: the AAAA negative TTL is min(SOA TTL, SOA MINIMUM) of the first SOA in the authority section
 //@ pred rrsWF(rs []dns.RR) := forall i int :: {rs[i]} 0 <= i && i < len(rs) ==> rs[i] != nil && (dyntype(rs[i], *dns.SOA) ==> as(rs[i], *dns.SOA) != nil)
-//@ spec soaNeg(s *dns.SOA) uint32 := ite(s.Minttl > 0 && s.Minttl < s.Hdr.Ttl, s.Minttl, s.Hdr.Ttl)
+//@ # RFC 2308 section 5: the negative TTL is min(SOA TTL, SOA MINIMUM) - also when MINIMUM is 0
+//@ spec soaNeg(s *dns.SOA) uint32 := ite(s.Minttl < s.Hdr.Ttl, s.Minttl, s.Hdr.Ttl)
 //@
 //@ func negativeAAAATTL
 //@   requires m != nil && rrsWF(m.Ns)
